@@ -28,6 +28,12 @@ def project(n):
         return {
             "src/a1.f90": "module alpha\n  !! first\n  use gamma\n  use beta\ncontains\n  subroutine same(x)\n    !! same in alpha\n    integer :: x\n    call helper(x)\n    call other(x)\n  end subroutine same\nend module alpha\n",
             "src/b2.f90": "module beta\n  !! second\ncontains\n  subroutine same(y)\n    !! same in beta\n    integer :: y\n  end subroutine same\n  subroutine helper(z)\n    integer :: z\n  end subroutine helper\nend module beta\n",
+            # re-exports two procedures imported with an ONLY list (their order reaches modules.json)
+            "src/e5.f90": "module facade\n  !! facade\n  use beta, only: helper, same\n  implicit none\n  include 'defs.inc'\nend module facade\n",
+            # the same include file name next to the source and in the include directory: the one next to the source wins
+            "src/defs.inc": "  integer, parameter :: max_items = 10 !! from the source directory\n",
+            "inc/defs.inc": "  integer, parameter :: max_items = 1000 !! from the include directory\n",
+            "inc2/defs.inc": "  integer, parameter :: max_items = 77 !! from the second include directory\n",
             "src/d4.f90": "subroutine driver(k)\n  !! an external procedure with USE statements of its own\n  use beta, only: helper\n  use gamma\n  integer :: k\n  call helper(k)\n  call other(k)\nend subroutine driver\n",
             "src/c3.f90": "module gamma\n  !! third\n  type :: same\n    integer :: v\n  end type same\ncontains\n  subroutine other(z)\n    integer :: z\n  end subroutine other\nend module gamma\n",
         }
@@ -56,7 +62,8 @@ def project(n):
     }
 
 
-META = {"graph": True, "search": True, "incl_src": True, "display": ["public", "private", "protected"], "proc_internals": True}
+META = {"graph": True, "search": True, "incl_src": True, "display": ["public", "private", "protected"], "proc_internals": True,
+        "externalize": True, "include": ["./inc", "./inc2"]}
 
 
 def diff_trees(a, b):
@@ -205,7 +212,7 @@ def run(tier, seed, ck: Check):
                 ck.violation("file-order", {"project": n, "order_a": ref_order, "order_b": order}, observed=d[:12],
                              detail=f"output differs between two file enumeration orders in {len(d)} files, e.g. {d[:4]}")
     # hash seeds, worker counts, output-directory histories through the real CLI
-    seeds = (0, 1, 2, 3, 17) if big else (0, 1, 3)
+    seeds = (0, 1, 2, 3, 4, 5, 6, 11, 17) if big else (0, 1, 3, 4, 6)
     variants = []
     for n in projects:
         for s in seeds:
